@@ -278,6 +278,20 @@ fn parse_ops(text: &str) -> Vec<(u32, u64, Vec<Op>)> {
     out
 }
 
+thread_local! {
+    /// the `meta` model stream (start-up entries: the writes of every finalization and the final
+    /// check points afterwards): (lines, implementation answers)
+    static META: std::cell::RefCell<(Vec<String>, Vec<String>)> = Default::default();
+}
+
+fn meta_push(line: String, imp: String) {
+    META.with(|m| {
+        let mut m = m.borrow_mut();
+        m.0.push(line);
+        m.1.push(imp);
+    });
+}
+
 /// runs one history on the implementation; returns (model lines, implementation answers)
 fn run_history(
     rep: &mut Report,
@@ -290,6 +304,9 @@ fn run_history(
     let mut lines = vec![format!("init {} {} 0", max_outbound, interval)];
     let mut impls = vec!["ok".to_string()];
     let required = ((max_outbound + 1) / 2) as usize;
+    meta_push("reset".into(), "ok".into());
+    meta_push("init 1 0".into(), String::new());
+    meta_push("cpdump".into(), format!("max {} cps {:?}", sim.finals().len() - 1, sim.finals()));
     let history_text = || -> Vec<String> {
         let mut v = vec![format!("history {} {}", max_outbound, interval)];
         v.extend(ops.iter().map(op_text));
@@ -373,7 +390,10 @@ fn run_history(
                 let before_final = sim.finals();
                 let n = std::rc::Rc::new(std::cell::Cell::new(0u32));
                 let c = n.clone();
+                let fin_sites: std::rc::Rc<std::cell::RefCell<Vec<&'static str>>> = Default::default();
+                let fs = fin_sites.clone();
                 crate::verif_hooks::set_before_write(Some(Box::new(move |_site| {
+                    fs.borrow_mut().push(_site);
                     c.set(c.get() + 1);
                     if c.get() == 2 {
                         panic!("simulated crash at the second store write of the finalization");
@@ -384,6 +404,20 @@ fn run_history(
                 crate::verif_hooks::set_before_write(None);
                 let rec = sim.nc.take();
                 rep.count_class(&format!("fincrash:{}", if n.get() >= 2 { "crashed" } else { "nothing-to-write" }));
+                if n.get() >= 2 {
+                    // the batch of check points reached the store, the index did not
+                    let written: Vec<String> = sim
+                        .env
+                        .storage
+                        .get_check_points(before_final.len() as u32, 64)
+                        .iter()
+                        .map(|h| hash_to_id(h, &sim.cp0).to_string())
+                        .collect();
+                    meta_push(format!("fin {} @ 1", written.join(" ")), format!("writes {}", fin_sites.borrow().join(" ")));
+                    meta_push("cpdump".into(), format!("max {} cps {:?}", sim.finals().len() - 1, sim.finals()));
+                } else {
+                    meta_push("fin".into(), format!("writes {}", fin_sites.borrow().join(" ")));
+                }
                 // what every start reads unconditionally (subcmds.rs: Peers::new(.., storage.get_last_check_point()))
                 // must be readable after the crash
                 let storage = sim.env.storage.clone();
@@ -425,7 +459,19 @@ fn run_history(
                 let before_final = sim.finals();
                 let before_vec = sim.vectors();
                 sim.nc.take();
+                let fin_sites: std::rc::Rc<std::cell::RefCell<Vec<&'static str>>> = Default::default();
+                {
+                    let fs = fin_sites.clone();
+                    crate::verif_hooks::set_before_write(Some(Box::new(move |site| fs.borrow_mut().push(site))));
+                }
                 let r = catch(|| protocol.verif_finalize_check_points(sim.nc.as_ref()));
+                crate::verif_hooks::set_before_write(None);
+                {
+                    let after = sim.finals();
+                    let new_vals: Vec<String> = after.iter().skip(before_final.len()).map(|v| v.to_string()).collect();
+                    meta_push(format!("fin {}", new_vals.join(" ")), format!("writes {}", fin_sites.borrow().join(" ")));
+                    meta_push("cpdump".into(), format!("max {} cps {:?}", after.len() - 1, after));
+                }
                 let rec = sim.nc.take();
                 let mut banned: Vec<u64> =
                     rec.banned.iter().map(|(p, _, _)| p.value() as u64).collect();
@@ -644,6 +690,19 @@ pub fn run(opts: &Options) -> Report {
         }
         all_lines.extend(lines);
         all_impls.extend(impls);
+    }
+    {
+        let (ml, mi) = META.with(|m| std::mem::take(&mut *m.borrow_mut()));
+        let ans = run_model(opts, "meta", &ml);
+        let mut reported = false;
+        for (i, a) in ans.iter().enumerate() {
+            if mi[i].is_empty() || *a == mi[i] {
+                rep.traces_validated += 1;
+            } else if !reported {
+                reported = true;
+                rep.disagree(&format!("meta: {} (after `{}`)", ml[i], ml[i.saturating_sub(1)]), &mi[i], a);
+            }
+        }
     }
     let answers = run_model(opts, "quorum", &all_lines);
     let mut bad_histories = BTreeSet::new();
